@@ -10,27 +10,34 @@ PATTERNS = {
     "Dotted": "as/{a}.{b}/cs/{c}",
     "Settings": "projects/{project}/settings",
     "Tilde": "zones/{zone}~{sub}_{leaf}",
+    # variables named like reserved (non-keyword) words: the helper's keyword parameters are the pattern's own variable names
+    "Media": "projects/{project}/mediaTypes/{type}",
+    "Export": "exports/{format}~{list}",
     "Any": "*",
 }
 
 
 def files():
     from vf import genlab as G
-    fd = G.new_file("acme/lab/v1/lab.proto", "acme.lab.v1")
+    # a resource declared in a file of another package that is only an import (not generated), reached through a resource_reference alone
+    store = G.new_file("acme/store/v1/resources.proto", "acme.store.v1")
+    G.add_message(store, "Bucket", [G.F("name", 1, G.T.TYPE_STRING)], resource=("store.example.com/Bucket", "buckets/{bucket}"))
+    fd = G.new_file("acme/lab/v1/lab.proto", "acme.lab.v1", deps=G.STD_DEPS + ["acme/store/v1/resources.proto"])
     for name, pat in PATTERNS.items():
         G.add_message(fd, name, [G.F("name", 1, G.T.TYPE_STRING)], resource=(f"lab.example.com/{name}", pat))
     G.add_message(fd, "Req", [G.F("name", 1, G.T.TYPE_STRING)] +
-                  [G.F(f"r{i}", i + 2, G.T.TYPE_STRING, resource_ref=f"lab.example.com/{n}") for i, n in enumerate(PATTERNS)])
+                  [G.F(f"r{i}", i + 2, G.T.TYPE_STRING, resource_ref=f"lab.example.com/{n}") for i, n in enumerate(PATTERNS)] +
+                  [G.F("bucket_ref", 40, G.T.TYPE_STRING, resource_ref="store.example.com/Bucket")])
     svc = G.add_service(fd, "Lab")
     for name in PATTERNS:
         G.add_method(svc, f"Get{name}", ".acme.lab.v1.Req", f".acme.lab.v1.{name}", http=("get", "/v1/{name=%s/*}" % name.lower()))
-    return [fd]
+    return [store, fd]
 
 
 def scenarios():
     from vf import genlab as G
     failures, cases = [], 0
-    api, res = G.generate(files(), "autogen-snippets=false")
+    api, res = G.generate(files(), "autogen-snippets=false", to_generate=["acme/lab/v1/lab.proto"])
     with G.materialised(res):
         from acme import lab_v1
         C = lab_v1.LabClient
@@ -63,6 +70,11 @@ def scenarios():
                 if back != seg or again != path:
                     failures.append({"resource": name, "pattern": pat, "segments": seg, "path": path, "parsed": back})
             # strings outside the pattern's language parse to {}
+            try:
+                getattr(C, f"{sn}_path")(**{v: "q" for v in vars_})
+            except Exception as e:      # noqa
+                failures.append({"resource": name, "pattern": pat, "what": "the build helper does not take the pattern's variables as keywords", "error": repr(e)[:200]})
+                continue
             for bad in ("", "nope", pat.split("{")[0].rstrip("/"), "x" + getattr(C, f"{sn}_path")(**{v: "q" for v in vars_})):
                 cases += 1
                 if getattr(C, f"parse_{sn}_path")(bad) != {}:
@@ -82,6 +94,12 @@ def scenarios():
             if back != seg:
                 failures.append({"resource": name, "pattern": pat, "what": "value ending in a newline does not survive parse(build(.))", "parsed": back,
                                  "known": "newline"})
+        # a resource visible only through a reference into an imported package
+        cases += 1
+        if not (hasattr(C, "bucket_path") and hasattr(C, "parse_bucket_path") and hasattr(lab_v1.LabAsyncClient, "bucket_path")):
+            failures.append({"resource": "store.example.com/Bucket", "what": "no path helpers for a referenced resource of an imported package"})
+        elif C.parse_bucket_path(C.bucket_path(bucket="b1")) != {"bucket": "b1"}:
+            failures.append({"resource": "store.example.com/Bucket", "what": "helpers are not inverse"})
         # common resources
         for cn, args in (("project", {"project": "p1"}), ("location", {"project": "p1", "location": "l-2"}), ("folder", {"folder": "f"}),
                          ("organization", {"organization": "o"}), ("billing_account", {"billing_account": "b"})):
